@@ -1230,3 +1230,26 @@ impl Walrus {
         Ok(entries)
     }
 }
+
+#[cfg(walrus_verif)]
+impl Walrus {
+    /// Read-only view of the reader state for the verification harness: per topic
+    /// (name, cur_block_idx, cur_block_offset, sealed chain as (block id, used)).
+    pub fn verif_reader_snapshot(&self) -> Vec<(String, usize, u64, Vec<(u64, u64)>)> {
+        let mut out = Vec::new();
+        if let Ok(map) = self.reader.data.read() {
+            for (name, info) in map.iter() {
+                if let Ok(i) = info.read() {
+                    out.push((
+                        name.clone(),
+                        i.cur_block_idx,
+                        i.cur_block_offset,
+                        i.chain.iter().map(|b| (b.id, b.used)).collect(),
+                    ));
+                }
+            }
+        }
+        out.sort();
+        out
+    }
+}
